@@ -161,6 +161,19 @@ def write(prop, tier, seed, level, agg, selftest, wall, batch_wall=None, error=N
             "real_vs_stub": REAL_VS_STUB,
         })
         for k, v in agg.extra.items():
+            if k == "grid_cells_visited" and isinstance(v, set):
+                # (template, fault site/kind) cells of the C18 grid: counts, not the 12 000-line list
+                cov["grid_cells_visited"] = len(v)
+                try:
+                    from . import c18sim
+
+                    total = {"%s|%s" % (n, ("%s@%s" % (kd, st)) if kd != "none" else "none") for n, st, kd in c18sim.grid()}
+                    cov["grid_cells_total"] = len(total)
+                    cov["grid_cells_visited_of_total"] = len(v & total)
+                    cov["distinct_abstract_states"] = len(v)
+                except Exception as e:  # evidence must be written even if the grid cannot be rebuilt here
+                    cov["grid_cells_total"] = "unavailable: %r" % (e,)
+                continue
             cov[k] = sorted(v) if isinstance(v, set) else v
         cov["raise_statement_reach"] = raise_reach(agg.raise_sites)
     cov["determinism_selftest"] = selftest
